@@ -161,3 +161,10 @@ Definition bad_point : @msg Toy := @MCreated Toy 7 500 (TBad 5) (TMac (TDH 100 1
 Definition subst_eph : @msg Toy :=
   @MCreated Toy 7 500 (TPub 66) (TMac (TDH 66 100) (TPub 66)) (TCJunk 0).
 
+
+(* hop 1's own created (and the same fields as an extended), re-labelled with the identifier 501 of the extend that
+   is pending in tO2 (hop 1 established with secret 100, unverified hop 2 with secret 102) *)
+Definition relabelled_created : @msg Toy :=
+  @MCreated Toy 7 501 (TPub 101) (TMac (TDH 100 101) (TPub 101)) (TCEnc (TKdf (TDH 100 101) (TDH 1 100)) [2; 2]).
+Definition relabelled_extended : @msg Toy :=
+  @MExtended Toy 7 501 (TPub 101) (TMac (TDH 100 101) (TPub 101)) (TCEnc (TKdf (TDH 100 101) (TDH 1 100)) [2; 2]).
